@@ -47,6 +47,9 @@ Definition canPrintWithoutEscape (c : Z) (asciiOnly : bool) : bool :=
   if c <=? 126 then (32 <=? c) && negb (c =? 92) && negb (c =? 34)
   else negb asciiOnly && negb (c =? 65279) && ((c <? 55296) || (57343 <? c)).
 
+(* fix commit 6fea80b: an invalid byte (RuneError with width <= 1) is never copied, it is written as \uFFFD *)
+Definition isInvalidByte (c w : Z) : bool := (c =? RuneError) && (w <=? 1).
+
 (* "0123456789ABCDEF" *)
 Definition hexChars : list Z := [48;49;50;51;52;53;54;55;56;57;65;66;67;68;69;70].
 
@@ -73,7 +76,7 @@ Section Quote.
       if i <? len text then
         t <- from text i ;;
         '(c, w) <- dec t ;;
-        if canPrintWithoutEscape c asciiOnly then run_end f (i + w) else Ok i
+        if canPrintWithoutEscape c asciiOnly && negb (isInvalidByte c w) then run_end f (i + w) else Ok i
       else Ok i
     end.
 
@@ -85,7 +88,7 @@ Section Quote.
       if i <? len text then
         t <- from text i ;;
         '(c, w) <- dec t ;;
-        if canPrintWithoutEscape c asciiOnly then
+        if canPrintWithoutEscape c asciiOnly && negb (isInvalidByte c w) then
           e <- run_end f (i + w) ;;
           seg <- slice text i e ;;
           qloop f e (acc ++ seg)
